@@ -7,6 +7,7 @@ import (
 	"fmt"
 	"net"
 	"os"
+	"os/exec"
 	"path/filepath"
 	"strconv"
 	"strings"
@@ -70,6 +71,36 @@ type recorder struct {
 	saves []*saveRec
 	cur   *saveRec
 	cond  *sync.Cond
+	// parking the updater at the beginning of its next save (it runs the hook on its own goroutine)
+	parkWanted bool
+	parked     chan int      // receives the position of the save at which the updater is parked
+	release    chan struct{} // closed by the harness to let the save go on
+}
+
+// requestPark arms the parking of the updater at its next save:0.
+func (r *recorder) requestPark() {
+	r.mu.Lock()
+	r.parkWanted = true
+	r.parked = make(chan int, 1)
+	r.release = make(chan struct{})
+	r.mu.Unlock()
+}
+
+// cancelPark withdraws a request that was not taken; false when the updater is (about to be) parked.
+func (r *recorder) cancelPark() bool {
+	r.mu.Lock()
+	defer r.mu.Unlock()
+	if r.parkWanted {
+		r.parkWanted = false
+		return true
+	}
+	return false
+}
+
+func (r *recorder) addSent(n int) {
+	r.mu.Lock()
+	r.sent += n
+	r.mu.Unlock()
 }
 
 func newRecorder(dir string) *recorder {
@@ -86,8 +117,15 @@ func (r *recorder) hook(name string) {
 	case "0":
 		r.mu.Lock()
 		r.cur = &saveRec{pos: r.sent - dastard.VerifC16Queued(), snaps: map[int]Snap{}, begun: time.Now()}
+		park := r.parkWanted
+		r.parkWanted = false
+		parked, release := r.parked, r.release
 		r.mu.Unlock()
 		r.cur.snaps[0] = readDir(r.dir)
+		if park {
+			parked <- r.cur.pos
+			<-release
+		}
 	case "end":
 		if r.cur == nil {
 			return
@@ -149,7 +187,7 @@ func currentTimeOf(b []byte) string {
 // renderSave: the observed trace (directory before the save, after the open of the temporary file
 // [constructed: the hooks sit between dastard's own calls, not inside viper], after each further step),
 // and what the real start-up sequence reads from each element.
-func renderSave(s *saveRec, tb *Table, scratch string, tags map[string]bool) (string, saveObs) {
+func renderSave(s *saveRec, tb *Table, scratch string, tags map[string]bool, d dirSpec) (string, saveObs, []Snap) {
 	var trace []Snap
 	reached := -1
 	for n := 0; n <= 4; n++ {
@@ -189,22 +227,25 @@ func renderSave(s *saveRec, tb *Table, scratch string, tags map[string]bool) (st
 		}
 		ob.Reads = append(ob.Reads, id)
 	}
-	// a save that returned early: the operation after the last point reached failed (the model takes the
-	// failure as an input, it cannot know about read-only media or directories in the way)
-	faults := "[]"
-	switch reached {
-	case 0:
-		faults = "[true]"
-	case 1:
-		faults = "[false;false;true]"
-	case 2:
-		faults = "[false;false;false;true]"
-	}
+	// Failing operations are an input of the model; the only ones the harness can arrange are the two
+	// obstructions of the directory specification (a failure that is not arranged is a difference).
+	faults := d.faults()
 	if reached < 4 {
 		tags["save-returned-early"] = true
 	}
 	term := fmt.Sprintf("Sv %s %s [%s] %s", coqVal(ob.Now), faults, strings.Join(dirs, ";"), coqZs(ob.Reads))
-	return term, ob
+	return term, ob, trace
+}
+
+// faults: which operation of every save fails in this directory (Coq list of booleans)
+func (d dirSpec) faults() string {
+	switch {
+	case d.TmpIsDir:
+		return "[true]" // the open of the temporary file
+	case d.BakIsDir:
+		return "[false;false;true]" // the removal of the old backup
+	}
+	return "[]"
 }
 
 func coqZs(xs []int64) string {
@@ -281,23 +322,56 @@ func prepareDir(dir string, d dirSpec) (cfg []Entry) {
 		os.Remove(filepath.Join(dir, bakName))
 		os.MkdirAll(filepath.Join(dir, bakName, "sub"), 0o775)
 	}
-	viper.Reset()
-	viper.SetDefault("Verbose", false)
-	viper.SetConfigFile(mainp)
-	if err := viper.ReadInConfig(); err != nil {
-		panic(fmt.Sprintf("cannot read the initial configuration: %v", err))
-	}
-	cfg = canonEntries(viper.GetViper(), func(k string) bool { return viper.InConfig(k) })
+	cfg = attachViper(dir)
 	if d.MainMissing {
 		os.Remove(mainp)
 	}
 	return cfg
 }
 
+// attachViper makes the process-wide viper a fresh instance that has read the main file, as in a dastard
+// that has just started (setupViper).
+func attachViper(dir string) []Entry {
+	viper.Reset()
+	viper.SetDefault("Verbose", false)
+	viper.SetConfigFile(filepath.Join(dir, mainName))
+	if err := viper.ReadInConfig(); err != nil {
+		panic(fmt.Sprintf("cannot read the configuration: %v", err))
+	}
+	return canonEntries(viper.GetViper(), func(k string) bool { return viper.InConfig(k) })
+}
+
+// killAndRestart leaves the directory as a kill at the given point of the last save would (all regular
+// files replaced by the snapshot), runs dastard's real start-up sequence on it in place, and attaches a
+// fresh viper: a new dastard process as far as saveState can tell.
+func killAndRestart(home, dir string, snap Snap) {
+	if snap != nil {
+		ents, _ := os.ReadDir(dir)
+		for _, e := range ents {
+			if e.Type().IsRegular() {
+				os.Remove(filepath.Join(dir, e.Name()))
+			}
+		}
+		snap.materialize(dir)
+	}
+	bin, err := dastardBinary()
+	if err != nil {
+		panic(err)
+	}
+	cmd := exec.Command(bin)
+	cmd.Dir = home
+	cmd.Env = []string{"HOME=" + home, "DASTARD_VERIF_C16=settings", "PATH=" + os.Getenv("PATH")}
+	if out, err := cmd.CombinedOutput(); err != nil {
+		panic(fmt.Sprintf("start-up in place failed: %v: %s", err, out))
+	}
+	attachViper(dir)
+}
+
 // ---------- mode "direct" ----------
 
 func runDirect(c Case, scratch string, tags map[string]bool) (string, interface{}, bool) {
-	dir := filepath.Join(scratch, "cfg")
+	home := filepath.Join(scratch, "home")
+	dir := filepath.Join(home, ".dastard")
 	cfg := prepareDir(dir, c.Dir)
 	tb := newTable()
 	dir0 := tb.coqDir(readDir(dir))
@@ -305,9 +379,22 @@ func runDirect(c Case, scratch string, tags map[string]bool) (string, interface{
 	dastard.VerifSetPointHook(rec.hook)
 	defer dastard.VerifSetPointHook(nil)
 	last := map[string]interface{}{}
-	var terms []string
+	var terms []string   // events of the current run
+	var runs []string    // finished runs after the first: "(k, [events])"
+	var first string     // events of the first run
+	var kill int64 = -1  // kill point that started the current run (-1: the first run)
+	var lastTrace []Snap // trace of the last save of the current run
 	var impl []interface{}
 	completed := 0
+	closeRun := func() {
+		h := "[" + strings.Join(terms, ";\n   ") + "]"
+		if kill < 0 {
+			first = h
+		} else {
+			runs = append(runs, fmt.Sprintf("(%d, %s)", kill, h))
+		}
+		terms = nil
+	}
 	for _, o := range c.Ops {
 		switch o.Op {
 		case "U":
@@ -321,7 +408,8 @@ func runDirect(c Case, scratch string, tags map[string]bool) (string, interface{
 			if len(rec.saves) != n+1 {
 				panic("saveState did not reach its end point")
 			}
-			t, ob := renderSave(rec.saves[n], tb, scratch, tags)
+			t, ob, tr := renderSave(rec.saves[n], tb, scratch, tags, c.Dir)
+			lastTrace = tr
 			terms = append(terms, t)
 			impl = append(impl, ob)
 			if ob.Reach == 4 {
@@ -331,9 +419,26 @@ func runDirect(c Case, scratch string, tags map[string]bool) (string, interface{
 			t, ob := renderRestart(scratch, readDir(dir), tags)
 			terms = append(terms, t)
 			impl = append(impl, ob)
+		case "K":
+			// dastard is killed at point N of its last save (or, without a save in this run, just killed)
+			// and started again: memory is gone, the directory is what the kill left
+			closeRun()
+			k := int64(0)
+			var snap Snap
+			if len(lastTrace) > 0 {
+				k = o.N % int64(len(lastTrace))
+				snap = lastTrace[k]
+			}
+			killAndRestart(home, dir, snap)
+			kill = k
+			lastTrace = nil
+			last = map[string]interface{}{}
+			impl = append(impl, map[string]int64{"killed_at_trace_state": k})
+			tags["kill-and-continue"] = true
 		}
 	}
-	term := fmt.Sprintf("mk %s %s\n  %s\n  %s", coqPairs(cfg), dir0, tb.coq(), "["+strings.Join(terms, ";\n   ")+"]")
+	closeRun()
+	term := fmt.Sprintf("mkK %s %s\n  %s\n  %s\n  [%s]", coqPairs(cfg), dir0, tb.coq(), first, strings.Join(runs, ";\n   "))
 	return term, impl, completed > 0
 }
 
@@ -451,11 +556,12 @@ type sentMsg struct {
 	text   string
 	sync   bool
 	shake  bool
+	extern bool // queued by dastard's own SourceControl (its text is learnt from the publication)
 	arming bool // a new value of a tag outside the no-save list (used only to choose how long a wait may last)
 }
 
 func runHist(c Case, scratch string, tags map[string]bool) (string, interface{}, bool) {
-	dir := filepath.Join(scratch, "cfg")
+	dir := filepath.Join(scratch, "home", ".dastard")
 	cfg := prepareDir(dir, c.Dir)
 	tb := newTable()
 	dir0 := tb.coqDir(readDir(dir))
@@ -492,6 +598,8 @@ func runHist(c Case, scratch string, tags map[string]bool) (string, interface{},
 	var markers []marker
 
 	syncNo := 0
+	fillNo := 0
+	var sc *dastard.SourceControl
 	lastText := map[string]string{}
 	put := func(m sentMsg, state interface{}) {
 		m.obj = canonSent(m.tag, state)
@@ -605,6 +713,84 @@ func runHist(c Case, scratch string, tags map[string]bool) (string, interface{},
 			if !saved {
 				tags["wait-without-save"] = true
 			}
+		case "SAQ":
+			// SendAllStatus through the real RPC method at the worst moment: the updater is busy (parked at the
+			// beginning of its save) and its queue is full but for the slot that the method's own STATUS takes
+			if sc == nil {
+				sc = dastard.VerifC16NewSourceControl(400, 1000)
+			}
+			pos := len(sentLog)
+			rec.mu.Lock()
+			lastSave := -1
+			for _, s := range rec.saves {
+				if s.pos > lastSave {
+					lastSave = s.pos
+				}
+			}
+			nBefore := len(rec.saves)
+			rec.mu.Unlock()
+			expect := lastSave < 0
+			for k := lastSave; k >= 0 && k < len(sentLog); k++ {
+				expect = expect || sentLog[k].arming
+			}
+			limit := 3500 * time.Millisecond
+			if expect {
+				limit = 20 * time.Second
+			}
+			rec.requestPark()
+			isParked := false
+			select {
+			case p := <-rec.parked:
+				isParked = true
+				if p != pos {
+					tags["parked-with-backlog"] = true
+				}
+			case <-time.After(limit):
+				if !rec.cancelPark() { // taken at the last moment
+					<-rec.parked
+					isParked = true
+				}
+			}
+			markers = append(markers, marker{pos: pos, nsaves: nBefore, term: "Wt " + boolStr(isParked), impl: map[string]bool{"wait_saved": isParked}})
+			if isParked {
+				fill := []string{"TRIGGERRATE", "NUMBERWRITTEN", "EXTERNALTRIGGER", "DATADROP"}
+				for n := 0; dastard.VerifC16Queued() < 9 && n < 12; n++ {
+					fillNo++
+					put(sentMsg{ev: i, tag: fill[n%len(fill)]}, map[string]int{"n": fillNo})
+				}
+				tags["sendall-with-full-queue"] = true
+			} else {
+				tags["wait-without-save"] = true
+			}
+			rpcDone := make(chan struct{})
+			go func() {
+				defer close(rpcDone)
+				dummy, okay := "dummy", false
+				sc.SendAllStatus(&dummy, &okay)
+			}()
+			if isParked {
+				// the method has queued its STATUS (queue full); give it the instant it needs to reach the marker
+				t := time.Now().Add(5 * time.Second)
+				for dastard.VerifC16Queued() < 10 && time.Now().Before(t) {
+					time.Sleep(100 * time.Microsecond)
+				}
+				select {
+				case <-rpcDone:
+				case <-time.After(50 * time.Millisecond):
+				}
+			}
+			sentLog = append(sentLog, sentMsg{ev: i, tag: "STATUS", extern: true, arming: true},
+				sentMsg{ev: i, tag: "SENDALL"})
+			rec.addSent(2)
+			if isParked {
+				close(rec.release)
+			}
+			select {
+			case <-rpcDone:
+			case <-time.After(30 * time.Second):
+				panic("SendAllStatus did not return")
+			}
+			closeBatch()
 		case "R":
 			closeBatch()
 			if broken {
@@ -654,7 +840,13 @@ func runHist(c Case, scratch string, tags map[string]bool) (string, interface{},
 			}
 			if len(q) > 0 && q[0].tag == m.tag {
 				pubs[k] = q[:1]
+				if m.extern {
+					sentLog[k].text = q[0].body
+					sentLog[k].obj = canonFromText(m.tag, q[0].body)
+				}
 				q = q[1:]
+			} else if m.extern {
+				sentLog[k].text, sentLog[k].obj = "!not published", "!not published"
 			}
 		}
 		if len(q) > 0 && b.last > b.first {
@@ -686,7 +878,7 @@ func runHist(c Case, scratch string, tags map[string]bool) (string, interface{},
 				continue
 			}
 			if nextSave < len(saves) && saves[nextSave].pos <= pos {
-				t, ob := renderSave(saves[nextSave], tb, scratch, tags)
+				t, ob, _ := renderSave(saves[nextSave], tb, scratch, tags, c.Dir)
 				terms = append(terms, t)
 				impl = append(impl, ob)
 				if ob.Reach == 4 {
